@@ -651,7 +651,7 @@ impl ZExec<$K> {
                 ZForm::V(v) => {
                     // counting version of the arithmetic operations: whatever happens, created - destroyed
                     // must equal what is still owned (n when a vector comes back, 0 after a panic or a reduction)
-                    let mode = op.a % 13;
+                    let mode = op.a % 21;
                     if mode >= 11 {
                         // the reference-left forms exist for the leaf element shapes with identities only
                         self.form = ZForm::V(v);
